@@ -1228,6 +1228,17 @@ class _Tree(_ArithmeticMixin, _Base):
             child = data.pop()
             self._data.append(_TreeItem(key, child))
 
+    def __copy__(self):
+        # copy.copy() would go through __reduce__, which names the C
+        # class, and hand that class our (pure-Python) children.  Make
+        # the shallow copy ourselves; like a copy of the C tree it
+        # shares the children with the original.
+        new = type(self)()
+        state = self.__getstate__()
+        if state is not None:
+            new.__setstate__(state)
+        return new
+
     def _assert(self, condition, message):
         if not condition:
             raise AssertionError(message)
